@@ -74,6 +74,9 @@ func (vm *varyMatcher) varyHeadersMatchOne(entry *ResponseRef, reqHeader http.He
 		return false // Vary: "*" never matches
 	}
 	for field, value := range entry.VaryResolved {
+		if field == "*" {
+			return false // a "*" member anywhere in the Vary list never matches (RFC 9111 §4.1)
+		}
 		reqValues := reqHeader[field]
 		// an empty value is comparable and means "no variation"
 		reqValue := ""
